@@ -52,4 +52,5 @@ class _x_iadd_attr:
 _case("x_max_short_slice", items=ListOf(Int(0, 6), max_len=7), i=Int(-1, 3))
 _ROWS = ListOf(ListOf(Int(0, 3), max_len=3), max_len=3)
 _case("x_generator", rows=_ROWS, extra=_ROWS, k=Int(0, 3), w=Int(0, 4)).generator_as_list = True
-_case("x_iter_next", items=_L, d=Int(-2, 5), k=Int(0, 4))
+_case("x_splice_rows", rows=_ROWS, y=Int(-1, 3), v=Int(0, 5))
+_case("x_generator_same_list", a=Int(0, 3), n=Int(0, 3), w=Int(0, 3)).generator_as_list = True
